@@ -4,6 +4,7 @@
 (*  Install  via acode akeylen pcode pkeylen exc bases isexc               *)
 (*  Master   alg pw(desc) pwlen exc bases isexc out interp                 *)
 (*  Localize alg master engine exc bases isexc out interp                  *)
+(*  UserKeys aalg kt akey pcipher pkey outa outp exc bases isexc           *)
 (* pw is described as [pat, n]: the octets pat repeated / cut to n octets  *)
 (* (1 MiB passwords are not materialised in the trace).                    *)
 (***************************************************************************)
@@ -34,7 +35,15 @@ LocalizeGood(e) ==
   /\ (v = "accept" /\ Accepted(e)) =>
         e.out = Pick(e.interp, LAMBDA x : x.f = "kul" /\ x.alg = AlgOf(e.alg) /\ x.master = e.master /\ x.engine = e.engine)
 
-Good(e) == IF e.ev = "Install" THEN InstallGood(e) ELSE IF e.ev = "Master" THEN MasterGood(e) ELSE LocalizeGood(e)
+(*  UserKeys aalg kt akey pcipher pkey outa outp exc : what gufo.snmp.user.User hands to the socket for the keys the caller gave *)
+UserKeysGood(e) ==
+  /\ Accepted(e) => /\ UserKeyOutOK(e.kt, e.akey, e.outa, e.aalg)
+                    /\ e.pcipher # 0 => UserKeyOutOK(e.kt, e.pkey, e.outp, e.aalg)
+  /\ (e.kt = 0 /\ Len(e.akey) > 0 /\ (e.pcipher # 0 => Len(e.pkey) > 0)) => Accepted(e)       \* non-empty passwords are never refused
+  /\ (e.kt # 0 /\ Len(e.akey) = KeySize(e.aalg) /\ (e.pcipher # 0 => Len(e.pkey) = KeySize(e.aalg))) => Accepted(e)
+
+Good(e) == IF e.ev = "Install" THEN InstallGood(e) ELSE IF e.ev = "Master" THEN MasterGood(e)
+           ELSE IF e.ev = "UserKeys" THEN UserKeysGood(e) ELSE LocalizeGood(e)
 
 TNext == /\ l <= Len(Rec) /\ l' = l + 1
          /\ fails' = IF Good(Rec[l]) THEN fails ELSE Append(fails, l)
